@@ -11,7 +11,7 @@ import re
 
 from mc import domains as D
 from mc.engine import InputPart, Viol
-from mc.props.common import canon, IT, PT, Textgrid, PE, errors, call, ents
+from mc.props.common import canon, IT, PT, Textgrid, PE, errors, call, ents, reborn_at
 from praatio.utilities import utils
 
 G = D.unit_grid(5)
@@ -144,7 +144,13 @@ def _check_gvap(case):
     pt = PT("p", [(t, "l%d" % i) for i, t in enumerate(pts)], 0, 3)  # several points may share a timestamp
     viols = []
     for fuzzy in (False, True):
-        handed = list(Dl)   # the caller's own list: a query reads it, the caller finds it as it was
+        # the previous recording: a series of the same length with other samples is queried and then dropped, so that the list handed in
+        # next is likely to be allocated where the dead one was (what a loop over recordings does)
+        decoy = [(t + 0.375, -1 - i) for t, i in Dl]
+        dead = id(decoy)
+        call(pt.getValuesAtPoints, decoy, fuzzy)
+        del decoy
+        handed = reborn_at(dead, lambda: [row for row in Dl])   # the caller's own list: a query reads it, the caller finds it as it was
         st, r, _ = call(pt.getValuesAtPoints, handed, fuzzy)
         if st == "exc":
             viols.append(Viol("getValuesAtPoints-raised", f"data {Dl} points {pts} fuzzy={fuzzy}: {r!r}"))
